@@ -674,7 +674,7 @@ impl Ctx {
 
 /// A case did not return: report it as a violation of the current property and leave (the stuck thread
 /// cannot be unwound).  The replay file re-runs exactly this case, which hangs - and is reported - again.
-fn report_hang(property: &str, tier: &str, sweep: &str, index: u64, secs: u64) -> ! {
+pub fn report_hang(property: &str, tier: &str, sweep: &str, index: u64, secs: u64) -> ! {
     let _ = std::fs::create_dir_all(format!("{VERIF_DIR}/replays"));
     let fname = format!("{VERIF_DIR}/replays/{}-{}-hang-{}.json", property, sweep.replace(['/', ' ', ':'], "_"), index);
     let msg = format!("case did not return within {secs} s: a library routine is looping on this input (or slower by orders of magnitude)");
